@@ -1,10 +1,26 @@
 (* C32 — WaitSet wakes whenever an attached condition becomes true.
-   Property file: statements, `exact`, assumptions. *)
-From DustDDS Require Import Base.Machine Sched.StatusCondModel Sched.StatusCondProofs.
-Open Scope Z_scope.
+   Property file: statements, `exact`, non-vacuity, assumptions.
 
-(* the trigger value computed by get_trigger_value is true exactly when an
-   enabled status is among the changed ones (any state, reachable or not) *)
+   Vocabulary (Sched/StatusCondModel.v): [cond] = DcpsStatusCondition (mask,
+   changed statuses, registered notification senders by channel index); [chan] =
+   the notification channel (notified, parked = a waker is stored, wakes = how
+   often it was called); [wsys] = all conditions, all channels and any number of
+   waiters, each executing WaitSetAsync::wait as atomic steps (one mail handled
+   by the DCPS worker, or one poll of the notification receiver) so that a list
+   of [wop] is an interleaving.  [fx] selects the patched set_enabled_statuses
+   (true) or the code in /repo (false).  [w_d6_free fx s ops] = no step of the
+   history is a set_enabled_statuses that makes a trigger value true while a
+   notification is registered on that condition (known finding
+   C32-enable-no-notify); it is identically true for the patched code. *)
+From DustDDS Require Import Base.Machine Sched.StatusCondModel Sched.StatusCondProofs
+                            Sched.StatusCondWaitProofs.
+Close Scope Z_scope.
+Open Scope nat_scope.
+
+(* ---- part 1: the trigger value *)
+
+(* get_trigger_value is true exactly when an enabled status is among the changed
+   ones — for every value of the fields, reachable or not *)
 Theorem C32_trigger_value_iff :
   forall c, cond_trigger c = true <->
             exists k, is_enabled (c_enabled c) k = true /\ In k (c_changes c).
@@ -15,5 +31,154 @@ Theorem C32_mask_enables_exactly_its_list :
   forall l k, is_enabled (mask_of_list l) k = true <-> In k l.
 Proof. exact is_enabled_mask_of_list_In. Qed.
 
+(* after EVERY history (any interleaving of status changes, reads,
+   set_enabled_statuses calls and steps of any number of wait calls, D6 histories
+   included, patched or not) the trigger value of every condition is "some status
+   is enabled by the last set_enabled_statuses (initially all) and has changed
+   since it was last read" *)
+Theorem C32_trigger_value_after_every_history :
+  forall fx nc nw ops c, c < nc ->
+    sys_trigger (w_sys (wrun fx (w_init nc nw) ops)) c =
+    spec_trigger (hist_en (map wop_ev ops) c) (hist_chg (map wop_ev ops) c).
+Proof. exact w_trigger_history. Qed.
+
+(* the same for the condition driven directly (register_notification / receiver
+   polls issued by hand instead of by wait) *)
+Theorem C32_trigger_value_after_every_direct_history :
+  forall fx nc nch ops c, c < nc ->
+    sys_trigger (d_sys (drun fx (d_init nc nch) ops)) c =
+    spec_trigger (hist_en (map dop_ev ops) c) (hist_chg (map dop_ev ops) c).
+Proof. exact d_trigger_history. Qed.
+
+(* ---- part 2: no lost wake-up *)
+
+(* the invariant: a condition with a registered notification has trigger value
+   false — for all interleavings outside the known class *)
+Theorem C32_registered_notification_implies_trigger_false :
+  forall fx nc nw ops, w_d6_free fx (w_init nc nw) ops = true ->
+    forall c cd, nth_error (conds (w_sys (wrun fx (w_init nc nw) ops))) c = Some cd ->
+      c_registered cd <> [] -> cond_trigger cd = false.
+Proof. exact reach_registered_trigger_false. Qed.
+
+(* no waiter sleeps while one of its conditions is true: a wait call that has
+   registered everywhere and whose channel is not notified has only false
+   conditions attached *)
+Theorem C32_no_waiter_sleeps_while_a_condition_is_true :
+  forall fx nc nw ops, w_d6_free fx (w_init nc nw) ops = true ->
+    forall w wt, nth_error (w_waiters (wrun fx (w_init nc nw) ops)) w = Some wt ->
+      w_pc wt = Await ->
+      notif (w_sys (wrun fx (w_init nc nw) ops)) (w_ch wt) = false ->
+      forall c, In c (w_att wt) -> sys_trigger (w_sys (wrun fx (w_init nc nw) ops)) c = false.
+Proof. exact no_sleep_while_true. Qed.
+
+(* every parked waiter is notified and its waker called exactly once at the very
+   step that makes one of its conditions true, whatever that step is *)
+Theorem C32_parked_waiter_is_woken_at_the_step :
+  forall fx nc nw ops o, w_d6_free fx (w_init nc nw) (ops ++ [o]) = true ->
+    forall w wt wt' x,
+      nth_error (w_waiters (wrun fx (w_init nc nw) ops)) w = Some wt -> w_pc wt = Await ->
+      nth_error (chans (w_sys (wrun fx (w_init nc nw) ops))) (w_ch wt) = Some x -> parked x = true ->
+      nth_error (w_waiters (wrun fx (w_init nc nw) (ops ++ [o]))) w = Some wt' -> w_pc wt' = Await ->
+      (exists c, In c (w_att wt') /\ sys_trigger (w_sys (wrun fx (w_init nc nw) (ops ++ [o]))) c = true) ->
+      exists y, nth_error (chans (w_sys (wrun fx (w_init nc nw) (ops ++ [o])))) (w_ch wt) = Some y /\
+                notified y = true /\ parked y = false /\ wakes y = S (wakes x).
+Proof. exact reach_woken_at_the_step. Qed.
+
+(* ---- part 3: wait returns, with every triggered attached condition *)
+
+(* a condition is true when wait is called (in any state whatsoever): the call
+   returns after its first loop with exactly the attached conditions that are true *)
+Theorem C32_wait_returns_at_once_if_a_condition_is_true :
+  forall fx s w wt cs c,
+    nth_error (w_waiters s) w = Some wt -> is_running (w_pc wt) = false ->
+    In c cs -> sys_trigger (w_sys s) c = true ->
+    let s' := wrun fx s (WStart w cs :: repeat (WStep w) (length cs)) in
+    w_sys s' = w_sys s /\
+    exists wt', nth_error (w_waiters s') w = Some wt' /\
+                w_pc wt' = Done (Ok (filter (sys_trigger (w_sys s)) cs)).
+Proof. exact wait_returns_if_true_at_call. Qed.
+
+(* a waiter that has reached the await and has a true condition attached (it
+   became true at any earlier point of any interleaving) completes within
+   1 + |attached| of its own steps with exactly the attached conditions that are
+   true, a non-empty list *)
+Theorem C32_wait_returns_when_a_condition_became_true :
+  forall fx nc nw ops, w_d6_free fx (w_init nc nw) ops = true ->
+    forall w wt c,
+      nth_error (w_waiters (wrun fx (w_init nc nw) ops)) w = Some wt -> w_pc wt = Await ->
+      In c (w_att wt) -> sys_trigger (w_sys (wrun fx (w_init nc nw) ops)) c = true ->
+      exists wt',
+        nth_error (w_waiters (wrun fx (w_init nc nw) (ops ++ repeat (WStep w) (S (length (w_att wt)))))) w = Some wt' /\
+        w_pc wt' = Done (Ok (filter (sys_trigger (w_sys (wrun fx (w_init nc nw) ops))) (w_att wt))) /\
+        filter (sys_trigger (w_sys (wrun fx (w_init nc nw) ops))) (w_att wt) <> [].
+Proof. exact reach_wait_returns_when_true. Qed.
+
+(* wherever a running wait call stands after any interleaving, its own next
+   steps (at most 3|attached|+1) take it to its return or to the parked state in
+   which every attached condition is false: there is no other place to get stuck *)
+Theorem C32_wait_alone_returns_or_parks_with_all_false :
+  forall fx nc nw ops, w_d6_free fx (w_init nc nw) ops = true ->
+    forall w wt, nth_error (w_waiters (wrun fx (w_init nc nw) ops)) w = Some wt ->
+      is_running (w_pc wt) = true ->
+      exists n, n <= 3 * length (w_att wt) + 1 /\
+        exists wt', nth_error (w_waiters (wrun fx (w_init nc nw) (ops ++ repeat (WStep w) n))) w = Some wt' /\
+          ((exists r, w_pc wt' = Done r) \/
+           parked_all_false (wrun fx (w_init nc nw) (ops ++ repeat (WStep w) n)) wt').
+Proof. exact reach_waiter_alone_returns_or_parks. Qed.
+
+(* ---- the known class *)
+
+(* the patched set_enabled_statuses has no excluded history: everything above
+   holds for all interleavings of the patched code *)
+Theorem C32_patched_code_excludes_nothing :
+  forall ops s, w_d6_free true s ops = true.
+Proof. exact w_d6_free_fixed. Qed.
+
+(* the code in /repo: enabling a status that has already changed leaves a parked
+   waiter asleep for ever although its condition is true (finding
+   C32-enable-no-notify, confirmed on the real code by the correspondence run) *)
+Theorem C32_enabling_a_changed_status_loses_the_wakeup :
+  exists ops, w_d6_free false (w_init 1 1) ops = false /\
+    let s := wrun false (w_init 1 1) ops in
+    sys_trigger (w_sys s) 0 = true /\
+    forall n, exists wt x,
+      nth_error (w_waiters (wrun false s (repeat (WStep 0) n))) 0 = Some wt /\
+      w_pc wt = Await /\ In 0 (w_att wt) /\
+      nth_error (chans (w_sys (wrun false s (repeat (WStep 0) n)))) (w_ch wt) = Some x /\
+      parked x = true /\ notified x = false /\ wakes x = 0.
+Proof. exact d6_lost_wakeup. Qed.
+
+(* the same for the condition driven directly: the invariant holds for all direct
+   histories outside the class *)
+Theorem C32_direct_registered_implies_trigger_false :
+  forall fx nc nch ops, d_d6_free fx (d_init nc nch) ops = true ->
+    forall c cd, nth_error (conds (d_sys (drun fx (d_init nc nch) ops))) c = Some cd ->
+      c_registered cd <> [] -> cond_trigger cd = false.
+Proof. exact d_reach_registered_trigger_false. Qed.
+
+(* ---- non-vacuity *)
+(* a d6-free interleaving of two waiters and two conditions that reaches a state
+   with a parked waiter, then the status change that wakes it *)
+Example C32_nonvacuous :
+  let ops := [WSetEnabled 1 [DataAvailable]; WStart 0 [0; 1]; WStart 1 [1]; WStep 0; WStep 1; WStep 0;
+              WStep 1; WStep 0; WStep 0; WStep 1; WStep 0] in
+  w_d6_free false (w_init 2 2) (ops ++ [WAdd 1 DataAvailable]) = true /\
+  (exists wt x, nth_error (w_waiters (wrun false (w_init 2 2) ops)) 0 = Some wt /\ w_pc wt = Await /\
+                nth_error (chans (w_sys (wrun false (w_init 2 2) ops))) (w_ch wt) = Some x /\
+                parked x = true) /\
+  sys_trigger (w_sys (wrun false (w_init 2 2) (ops ++ [WAdd 1 DataAvailable]))) 1 = true.
+Proof. cbn zeta. split; [vm_compute; reflexivity|]. split; [eexists; eexists; vm_compute; repeat split; reflexivity | vm_compute; reflexivity]. Qed.
+
 Print Assumptions C32_trigger_value_iff.
 Print Assumptions C32_mask_enables_exactly_its_list.
+Print Assumptions C32_trigger_value_after_every_history.
+Print Assumptions C32_trigger_value_after_every_direct_history.
+Print Assumptions C32_registered_notification_implies_trigger_false.
+Print Assumptions C32_no_waiter_sleeps_while_a_condition_is_true.
+Print Assumptions C32_parked_waiter_is_woken_at_the_step.
+Print Assumptions C32_wait_returns_at_once_if_a_condition_is_true.
+Print Assumptions C32_wait_returns_when_a_condition_became_true.
+Print Assumptions C32_wait_alone_returns_or_parks_with_all_false.
+Print Assumptions C32_patched_code_excludes_nothing.
+Print Assumptions C32_enabling_a_changed_status_loses_the_wakeup.
+Print Assumptions C32_direct_registered_implies_trigger_false.
